@@ -408,19 +408,19 @@ def run_impl(case):
     forward = case["forward"]
     saw = []
 
-    def make_wrapper(below, top):
+    def make_wrapper(below, top, forwards):
         if is_async:
             async def wrapper(*args, **kwargs):
                 if top:
                     saw.append((args, dict(kwargs)))
-                if forward:
+                if forwards:
                     return await below(*args, **kwargs)
                 return None
         else:
             def wrapper(*args, **kwargs):
                 if top:
                     saw.append((args, dict(kwargs)))
-                if forward:
+                if forwards:
                     return below(*args, **kwargs)
                 return None
         return wrapper
@@ -449,7 +449,8 @@ def run_impl(case):
     nsteps = len(case["steps"])
     for i, st in enumerate(case["steps"]):
         injected, expected, kw = _step_args(st, funcutils)
-        wrapper = make_wrapper(cur, i == nsteps - 1)
+        # every wrapper forwards (plain stacks), or only those of the top `partial` levels
+        wrapper = make_wrapper(cur, i == nsteps - 1, forward or i >= nsteps - case.get("partial", 0))
         fids[id(wrapper)] = WRAPPER_ID + i
         try:
             if st["entry"] == "update_wrapper":
@@ -476,7 +477,7 @@ def run_impl(case):
     obs["fdict_after"] = obs_dict(f, fids)
     # ... and one more, independent, plain wraps(f) afterwards must still see f's own signature
     try:
-        again = funcutils.wraps(f)(make_wrapper(f, False))
+        again = funcutils.wraps(f)(make_wrapper(f, False, True))
         obs["again"] = obs_sig(inspect.signature(again, follow_wrapped=False))
     except (ValueError, SyntaxError):
         obs["again"] = None
@@ -569,8 +570,8 @@ def to_coq(case, obs):
     levels = clist("(mkBO %s %s %s %s %s %s)" % (_sig(b["sig"]), cnat(b["name"]), _on(b["doc"]), _on(b["module"]),
                                                   _nv(b["dict"]), cbool(b["async"])) for b in obs["levels"])
     fail = "None" if obs["fail"] is None else "(Some %s)" % EXN[obs["fail"]]
-    return "mkCase %s %s %s %s %s %s %s %s %s %s %s %s %s" % (
-        _pyfunc(case["f"]), clist(_step(st) for st in case["steps"]), cbool(case["forward"]),
+    return "mkCase %s %s %s %s %s %s %s %s %s %s %s %s %s %s" % (
+        _pyfunc(case["f"]), clist(_step(st) for st in case["steps"]), cbool(case["forward"]), cnat(case.get("partial", 0)),
         clist(_call(c) for c in case["calls"]),
         _sig(obs["fsig"]), cbool(obs["fasync"]), clist(_rb(r) for r in obs["direct"]),
         _sig(obs["fsig_after"]), _nv(obs["fdict_after"]),
@@ -746,7 +747,15 @@ def make_case(rng, fd, ncalls, variant, depth=1, variants=None):
     calls = make_calls(rng, fd2, ncalls)
     for s in (0, 1, 1):
         calls.append(accepting_call(rng, fd, s))
-    return {"f": fd, "steps": steps, "forward": plain, "calls": calls}
+    # in a stack that is not all plain, the wrappers of the plain levels on top forward, so that calls run
+    # through the generated bodies of those levels and of the first level below them
+    partial = 0
+    if not plain:
+        for st in reversed(steps):
+            if st["injected"] or st["expected"]:
+                break
+            partial += 1
+    return {"f": fd, "steps": steps, "forward": plain, "partial": partial, "calls": calls}
 
 
 def grid():
@@ -791,8 +800,12 @@ def generate(rng, tier, n):
         variant = rng.choice(["plain", "plain", "inject", "inject", "expect", "expect", "both"])
         depth = rng.choice([1, 1, 1, 1, 2, 2, 3])
         variants = None
-        if depth > 1 and rng.random() < 0.4:
+        r_ = rng.random()
+        if depth > 1 and r_ < 0.35:
             variants = ["plain"] * depth                      # a stack of pass-through decorators
+        elif depth > 1 and r_ < 0.65:
+            # a modifying decorator with pass-through decorators stacked on top: their wrappers forward
+            variants = [rng.choice(["inject", "expect", "both"])] + ["plain"] * (depth - 1)
         yield make_case(rng, fd, ncalls, variant, depth=depth, variants=variants)
         count += 1
 
@@ -860,6 +873,7 @@ def distribution(d, case, obs):
         inc("wrapped_function_already_has___wrapped__", "yes")
     inc("form", ("async " if fd["async"] else "") + fd["form"])
     inc("stack", "stopped:" + obs["fail"] if obs.get("fail") else "built")
+    inc("forwarding", "to f" if case["forward"] else "through %d lower levels" % case.get("partial", 0))
     for c in obs.get("top_calls", []):
         inc("call_outcome", "TypeError" if c["out"] == "TypeError" else "accepted")
     d["calls_total"] = d.get("calls_total", 0) + len(case["calls"])
@@ -884,7 +898,9 @@ def shrink(case):
             for i in range(len(calls)):
                 yield dict(case, calls=calls[:i] + calls[i + 1:])
     steps = case["steps"]
-    if len(steps) > 1:
+    if case.get("partial", 0):
+        yield dict(case, partial=0)
+    if len(steps) > 1 and not case.get("partial", 0):
         yield dict(case, steps=steps[:-1])
     for i, st in enumerate(steps):
         for key in ("injected", "expected"):
